@@ -730,7 +730,9 @@ fn exec_worker_det(case: &Sx, out_fail: &mut Vec<String>) -> Sx {
             _ => {
                 let g = a.arg(0).num() as usize;
                 if let Some(slot) = guards.get_mut(g) {
-                    drop(slot.take());
+                    // guards with an odd index are dropped by a frame that is unwinding from a panic: merge-on-drop
+                    // must merge all the same
+                    if let Some(x) = slot.take() { crate::common::drop_placed(x, g % 2 == 1); }
                 }
             }
         }
